@@ -18,7 +18,7 @@ import (
 
 func init() {
 	simrt.Register(&simrt.Scenario{
-		Prop: "C11", Name: "session-histories", Count: tiered(400, 25000),
+		Prop: "C11", Name: "session-histories", Count: tiered(400, 200000),
 		Run: c11Run, MaxOps: 8 << 20, Horizon: 8 * time.Hour,
 		Doc: "one session driven as gRPC drives it (Accept re-entered at once, Dial sometimes called while a connection is open) through a tape-chosen history of connect / transfer / close-by-client / close-by-server / close-by-both / relay-outage events; first pairing at version 2 (or 1: no switch); finally a second, unpaired client with only the passphrase",
 	})
